@@ -2,7 +2,7 @@ SPECIFICATION Spec
 CONSTANTS
   LongLen = 5
   Layouts <- MCLayouts
-  BaseLens = {0, 1, 4, 5, 6, 9}
+  BaseLens = {1, 4, 5, 9}
   Wipes = {}
   Variants = {"asis", "fixed"}
   Cuts = TRUE
@@ -18,7 +18,7 @@ CONSTANTS
   LockBits = {}
   CtlTypes = {2}
   TwoCtl = FALSE
-  OldLens = {0, 1, 5, 9}
+  OldLens = {1, 5}
 INVARIANT FxAtomic
 INVARIANT AtomicButStraddle
 INVARIANT Coherent
